@@ -8,11 +8,14 @@
    Spec/CalendarSpec.v).  tz_table / month_table / dt_table are REGENERATED from /repo on every run. *)
 From Coq Require Import String.
 From S4.Base Require Import Bytes.
+From S4.Base Require Chunk.
 From S4.Model Require Import Calendar Normalise Regex RegexPlan RegexDt RegexNum Year.
+From S4.Model Require Lines Gate GateSpec.
+From S4.Gen Require BlockConsts.
 From S4.Gen Require Import DatetimeTables RegexTables.
 From S4.Spec Require Import CalendarSpec TzRef NormaliseSpec.
 From S4.Proofs Require Import CalendarProofs CalendarExtra NormaliseTablesOk NormaliseProofs NormaliseDenotes.
-From S4.Proofs Require Import RegexProofs RegexSim RegexUniv RegexExamples RegexIso RegexNumProofs RegexNumCover RegexYear RegexComp RegexCompRows.
+From S4.Proofs Require Import RegexProofs RegexSim RegexUniv RegexExamples RegexIso RegexNumProofs RegexNumCover RegexYear RegexComp RegexCompRows RegexChoice.
 Close Scope string_scope.
 Open Scope list_scope.
 Open Scope N_scope.
@@ -557,3 +560,55 @@ Example C04_regex_refuted_example :
   rx_index (row_at 0) < rx_index (row_at 79) /\ ~ In (rx_index (row_at 0)) (competitors rx_table (row_at 79)).
 Proof. exact refuted_example. Qed.
 Print Assumptions C04_regex_refuted_example.
+
+Module ChoiceRule.
+Import Chunk Lines Gate GateSpec BlockConsts.
+(* ================================================================== competition and the CHOICE rule (with C12)
+   WP-G's gate_accept_spec (Props/C12.v): outside the decidable classes (first dated line incomplete in block
+   zero, count minimum, mixed notation) the complete block-zero analysis Model/Gate.gate_rows accepts what
+   GateSpec.spec_accept accepts and keeps the row it names: the first row, in table order, dating the first dated
+   line.  With the oracle instantiated by the regex model ([rx_dated] = dated_model per row): *)
+Theorem C04_regex_choice_first_line : forall yo off bs (f : file) b e t x i t',
+  sp_blocksz_min <= bs -> bs <= blocksz_max ->
+  in_classes (rx_dated yo off) rx_rows bs f = false ->
+  first_dated (rx_dated yo off) rx_rows f = Some (b, e, t, x) ->
+  In i rx_rows ->
+  rx_dated yo off i (slice f b (e + 1)) = Some t' ->
+  (forall j, j < i -> rx_dated yo off j (slice f b (e + 1)) = None) ->
+  accepted (gate_rows (rx_dated yo off) rx_rows bs f) =
+    if (lenN f <? bytes_min) || all_zero (firstnN bytes_null_max f) then None else Some i.
+Proof. exact choice_first_line. Qed.
+Print Assumptions C04_regex_choice_first_line.
+
+(* ... and for a file whose first dated line is a NUMERIC family line of row i (numbers as in C04_regex_numbers,
+   timestamp at the start of the line, inside every earlier row's slice) on which the listed competitors of i are
+   silent — nothing to check when competitors(i) = [] — block-zero analysis keeps row i: F13-style mis-locking
+   cannot happen.  The rows with a non-empty competitor list are the candidates of the known findings F13 / F16. *)
+Theorem C04_regex_choice_numeric : forall yo off bs (f : file) b e t x row dr r texts rest tail,
+  sp_blocksz_min <= bs -> bs <= blocksz_max ->
+  in_classes (rx_dated yo off) rx_rows bs f = false ->
+  first_dated (rx_dated yo off) rx_rows f = Some (b, e, t, x) ->
+  nth_rx' (rx_index row) = Some row -> nth_dt' (rx_index row) = Some dr ->
+  slice f b (e + 1) = (concat texts ++ rest) ++ tail ->
+  row_numeric row (r_dtfs dr) = true ->
+  fread_admitted row (r_dtfs dr) (row_plan row) (row_fam row) r = true ->
+  fread_valid r yo = true -> fallback_ok off = true ->
+  plan_caps row (row_plan row) texts = fread_caps r ->
+  seps_in_family row texts = true -> rest_ok (row_rf row) true rest = true ->
+  slice_of row ((concat texts ++ rest) ++ tail) = Some (concat texts ++ rest) ->
+  concat texts <> [] -> ts_fits (rx_index row) (concat texts) = true ->
+  (forall j, In j (competitors rx_table row) -> rx_dated yo off j ((concat texts ++ rest) ++ tail) = None) ->
+  accepted (gate_rows (rx_dated yo off) rx_rows bs f) =
+    if (lenN f <? bytes_min) || all_zero (firstnN bytes_null_max f) then None else Some (rx_index row).
+Proof. exact choice_numeric. Qed.
+Print Assumptions C04_regex_choice_numeric.
+
+Example C04_regex_choice_example :
+  in_classes (rx_dated None 0) rx_rows 256 choice_file = false /\
+  first_dated (rx_dated None 0) rx_rows choice_file = Some (0, 69, 946684801123000000%Z, 0) /\
+  In 0 rx_rows /\
+  rx_dated None 0 0 (slice choice_file 0 (69 + 1)) = Some 946684801123000000%Z /\
+  accepted (gate_rows (rx_dated None 0) rx_rows 256 choice_file) = Some 0.
+Proof. exact choice_example. Qed.
+Print Assumptions C04_regex_choice_example.
+End ChoiceRule.
